@@ -34,6 +34,10 @@ FIXED = [
   "`use-defsrc` inside a defchordsv2 action indexed src_keys[852]; `_` carried into defchordsv2 through an alias failed the assertion in resolve_coord (F1, F2)"),
  ("F27", "C03", "fix: the error span of an unterminated multi-line string or comment",
   "a config ending in an unterminated `r#\"...` string or `#|` comment whose last character is multi-byte produced a span ending inside that character; rendering the diagnostic panicked in miette"),
+ ("F22", "C01", "fix: chords v2 releases an active chord whose keys are released during the chord cool-down",
+  "chords v2: releases arriving while chords are ignored (chords-v2-min-idle window after a non-chord resolution) bypassed drain_releases, so an active chord was never released: its key stayed down and kanata never became idle"),
+ ("F7", "C01", "fix: a macro evicted from the 4-slot ring of running macros releases the keys it holds",
+  "a fifth concurrent macro evicted the oldest from the 4-slot ring and the keys that macro had pressed were never released (RShift / LCtrl stuck down)"),
 ]
 log = subprocess.check_output(["git", "-C", "/repo", "log", "--format=%h %s"]).decode().splitlines()
 out = []
